@@ -20,7 +20,7 @@ SPEC = dict(
                "in a tight loop - every answer must be one of the states the script passes through when run alone, never an earlier one after a later one; "
                "(4) a monitor hammer: 16 goroutines x thousands of monitored searches, then every total - also the sum of the observed query lengths - must account for "
                "every search; (5) a 16-goroutine LRU hammer. A round whose goroutines are still parked on locks of the code under test after two minutes, none running, "
-               "is reported as a deadlock with their stacks (anything else that slow is inconclusive). Any race report whose stack touches the module is a violation. Every third round all goroutines share one platform list spelt as people spell it (Linux, ' macos ', Darwin, OSX) with spare capacity behind it; it must come back unchanged.",
+               "is reported as a deadlock with their stacks (anything else that slow is inconclusive). Any race report whose stack touches the module is a violation. Every third round all goroutines share one platform list spelt as people spell it (Linux, ' macos ', Darwin, OSX) with spare capacity behind it; it must come back unchanged. Every other round without an index searches a database that also holds entries without a single word (!!, $?, a lone pipe).",
     level_note="The race detector sees only races on executed paths with the observed happens-before; linearizability is decided per recorded history "
                "(porcupine timeout 10 s => inconclusive). EnableCache / EnableMonitoring are not in the statement's list of concurrent operations and are not mixed in.",
     engines=[dict(name="conc-search", shards=T(8, 16), timeout=T(1500, 7200), race=True, parallel=8),
@@ -32,10 +32,10 @@ SPEC = dict(
          "through the caching wrapper at the same moment by two goroutines, 30 (60) times each with the cache emptied before, and compared with their answers alone. "
          "overlapping-sweep-rounds (conc-lru): a cache whose 200 entries have all outlived their lifetime is swept by three goroutines at once while six look up a key that is never stored; each reads "
          "Size() after its own sweep returned and must see 0, as it does when the same is run alone (checked first; a tree whose sweeps are lazy when run alone makes the rounds inconclusive).",
-    floors=T({"rounds-with-shared-platform-list": 8, "mixed-option-answers-compared": 5000, "overlapping-sweep-rounds": 800, "same-key-hammer-rounds": 250, "look-alike-requests-asked-at-once": 6000, "look-alike-pairs-with-different-answers-asked-at-once": 60, "goroutine-rounds": 40, "concurrent-answers-compared": 3000, "loaded-by:LoadDatabaseWithFallback(faulty path)": 8, "monitored-searches": 500,
+    floors=T({"rounds-on-a-database-with-entries-that-hold-no-word": 8, "rounds-with-shared-platform-list": 8, "mixed-option-answers-compared": 5000, "overlapping-sweep-rounds": 800, "same-key-hammer-rounds": 250, "look-alike-requests-asked-at-once": 6000, "look-alike-pairs-with-different-answers-asked-at-once": 60, "goroutine-rounds": 40, "concurrent-answers-compared": 3000, "loaded-by:LoadDatabaseWithFallback(faulty path)": 8, "monitored-searches": 500,
               "histories-linearizable": 2000, "histories-searchcache": 300, "lru-hammer-rounds": 30, "distinct_nontrivial": 2000,
               "rounds-with-embeddings": 8, "fresh-instance-answers-compared": 60, "other-process-answers-compared": 50, "snapshot-rounds": 200, "snapshot-reads": 50000, "monitor-hammer-searches": 500000, "histories-with-lifetime": 500, "sweeps-that-removed-entries": 30},
-             {"rounds-with-shared-platform-list": 60, "mixed-option-answers-compared": 30000, "overlapping-sweep-rounds": 8000, "same-key-hammer-rounds": 5000, "look-alike-requests-asked-at-once": 80000, "look-alike-pairs-with-different-answers-asked-at-once": 400, "goroutine-rounds": 250, "concurrent-answers-compared": 20000, "loaded-by:LoadDatabaseWithFallback(faulty path)": 50, "monitored-searches": 3000,
+             {"rounds-on-a-database-with-entries-that-hold-no-word": 60, "rounds-with-shared-platform-list": 60, "mixed-option-answers-compared": 30000, "overlapping-sweep-rounds": 8000, "same-key-hammer-rounds": 5000, "look-alike-requests-asked-at-once": 80000, "look-alike-pairs-with-different-answers-asked-at-once": 400, "goroutine-rounds": 250, "concurrent-answers-compared": 20000, "loaded-by:LoadDatabaseWithFallback(faulty path)": 50, "monitored-searches": 3000,
               "histories-linearizable": 40000, "histories-searchcache": 6000, "lru-hammer-rounds": 300, "distinct_nontrivial": 40000,
               "rounds-with-embeddings": 60, "fresh-instance-answers-compared": 500, "other-process-answers-compared": 400, "snapshot-rounds": 2000, "snapshot-reads": 500000, "monitor-hammer-searches": 5000000, "histories-with-lifetime": 10000, "sweeps-that-removed-entries": 600}),
     assumptions=["two thirds of the recorded LRU histories have no lifetime (time-independent model); in the others time is virtual (VerifAdvance) and ages are 400 h steps against a 1000 h lifetime, so real elapsed time never decides",
